@@ -1694,6 +1694,101 @@ func VH04g_many_peers() {
 	sock.Close()
 }
 
+// VH04i_shared_carrier: N contexts (socket included) each have a request outstanding, all carried by the same
+// connection (the only one at the time; a connection is ready again after each transmission). A second peer
+// connects, then the carrier is lost. With retries on, EVERY outstanding request is re-sent at once to the survivor,
+// byte-identical and once, and each context receives the reply to its own request; with retries off, every context's
+// Recv is cancelled and nothing is re-sent.
+func VH04i_shared_carrier() {
+	N := verif.Param("N", 3)
+	lab := "C04/shared-carrier"
+	sock := vp.New("req")
+	retries := verif.Choice("retries", 2) == 1
+	rt := time.Duration(0)
+	if retries {
+		rt = time.Minute
+	}
+	verif.Assert(sock.SetOption(mangos.OptionRetryTime, rt) == nil, lab+"/set-retry")
+	side := vt.Listen(sock, "a")
+	vt.ChooseErrors()
+	a := side.Peer("A")
+	type rq struct {
+		send func([]byte) error
+		recv func() (*mangos.Message, error)
+		tag  byte
+		h, b []byte
+		g    *verif.G
+		m    *mangos.Message
+		err  error
+	}
+	var rs []*rq
+	rs = append(rs, &rq{send: sock.Send, recv: sock.RecvMsg})
+	for i := 1; i < N; i++ {
+		c, err := sock.OpenContext()
+		verif.Assert(err == nil, lab+"/open-context")
+		if err != nil {
+			return
+		}
+		c.SetOption(mangos.OptionRetryTime, rt)
+		rs = append(rs, &rq{send: c.Send, recv: c.RecvMsg})
+	}
+	for i, r := range rs {
+		r.tag = byte('a' + i)
+		verif.Assert(r.send([]byte{r.tag, verif.Byte("payload")}) == nil, lab+"/send")
+		verif.Quiesce()
+		n := len(a.Sent)
+		if n != i+1 || len(a.Sent[n-1].B) != 2 || a.Sent[n-1].B[0] != r.tag {
+			verif.Fail(lab + "/request-not-carried-by-the-only-connection")
+			return
+		}
+		r.h, r.b = append([]byte{}, a.Sent[n-1].H...), append([]byte{}, a.Sent[n-1].B...)
+	}
+	for _, r := range rs {
+		rr := r
+		rr.g = verif.Go("recv", func() { rr.m, rr.err = rr.recv() })
+	}
+	verif.Quiesce()
+	b := side.Peer("B")
+	verif.Quiesce()
+	verif.Assert(len(b.Sent) == 0, lab+"/transmitted-to-a-new-peer-without-cause")
+	a.Drop()
+	verif.Quiesce()
+	if !retries {
+		verif.Assert(len(b.Sent) == 0, lab+"/re-sent-although-retries-are-off")
+		for _, r := range rs {
+			verif.Assert(r.g.Done(), lab+"/recv-not-cancelled-by-the-loss-of-its-carrier-with-retries-off")
+			if r.g.Done() {
+				verif.Assert(r.err == mangos.ErrCanceled, lab+"/retries-off-loss-error-kind")
+			}
+		}
+		verif.Reach("shared-carrier-cancelled")
+		sock.Close()
+		return
+	}
+	for _, r := range rs {
+		n := 0
+		for _, x := range b.Sent {
+			if len(x.B) == 2 && x.B[0] == r.tag {
+				n++
+				verif.Assert(verif.BytesEq(x.H, r.h) && verif.BytesEq(x.B, r.b), lab+"/retransmission-differs-from-the-request")
+			}
+		}
+		verif.Assert(n == 1, lab+"/outstanding-request-not-re-sent-exactly-once-after-the-loss-of-its-carrier")
+	}
+	// replies in reverse order
+	for i := len(rs) - 1; i >= 0; i-- {
+		r := rs[i]
+		b.Deliver([]byte{r.h[0], r.h[1], r.h[2], r.h[3], r.tag})
+		verif.Quiesce()
+		verif.Assert(r.g.Done() && r.err == nil, lab+"/reply-does-not-complete-the-context")
+		if r.g.Done() && r.err == nil {
+			verif.Assert(len(r.m.Body) == 1 && r.m.Body[0] == r.tag, lab+"/context-got-another-contexts-reply")
+		}
+	}
+	verif.Reach("shared-carrier-resent")
+	sock.Close()
+}
+
 // VH04h_write_fault: the connection that is handed a request cannot be written
 // to (the write fails at once, or after having stalled), although its read side
 // stays healthy -- nothing else tells the library that the connection is bad.
